@@ -119,16 +119,18 @@ class Wavefunction:
         return self._amplitude_vector[idx]
 
     def __setitem__(self, idx, val):
-        old_val = self._amplitude_vector[idx]
-        if isinstance(old_val, np.ndarray):
-            # A slice of a numpy array is a view; keep the values, not the view.
-            old_val = old_val.copy()
+        # Keep the whole vector: a slice of a numpy array is a view, and what a key reads
+        # from a sympy Matrix need not be what it writes (wf[0:0] = 5 writes element 0).
+        old_vector = self._amplitude_vector.copy()
         self._amplitude_vector[idx] = val
 
         try:
             self._check_normalization(self._amplitude_vector)
         except ValueError:
-            self._amplitude_vector[idx] = old_val
+            if isinstance(self._amplitude_vector, np.ndarray):
+                self._amplitude_vector[...] = old_vector
+            else:
+                self._amplitude_vector = old_vector
 
             raise ValueError("This assignment violates probability unity.")
 
